@@ -4,6 +4,7 @@ CONSTANTS Keys = {1, 2, 3}
           BatchVals = {0, 1, 2, 3}
           ThrVals = {0, 1, 2, 3}
           BadSets = {{}, {3}, {1, 2}, {1, 2, 3}}
-INVARIANTS NoRejectedAnnounced OnlyStreamKeys BatchBound AllAllowedAnnounced CarryOnlyRejected
+          PlanModes = {"same", "set"}
+INVARIANTS NoRejectedAnnounced OnlyStreamKeys BatchBound AllAllowedAnnounced CarryOnlyRejected EveryPassComplete
 PROPERTIES Terminates
 CHECK_DEADLOCK FALSE
